@@ -391,8 +391,49 @@ def run_lookup(case):
     return out
 
 
+def save_on(kind, case):
+    """record and save one operation (which makes the case's call through a decorated input) on a fresh cassette of `kind`"""
+    import shutil
+    import tempfile
+    cleanup = lambda: None      # noqa: E731
+    if kind == "file":
+        from playback.tape_cassettes.file_based.file_based_tape_cassette import FileBasedTapeCassette
+        d = tempfile.mkdtemp(prefix="verif_keys_")
+        cas, cleanup = FileBasedTapeCassette(d), (lambda: shutil.rmtree(d, ignore_errors=True))
+    elif kind == "s3":
+        import os
+        import fake_s3
+        s3c = fake_s3.install()
+        save_on.n = getattr(save_on, "n", 0) + 1
+        cas, cleanup = s3c.S3TapeCassette("kd%d_%d" % (os.getpid(), save_on.n), key_prefix="pre", read_only=False), fake_s3.reset
+    else:
+        from playback.tape_cassettes.in_memory.in_memory_tape_cassette import InMemoryTapeCassette
+        cas = InMemoryTapeCassette()
+    try:
+        rec = TapeRecorder(cas)
+        rec.enable_recording()
+        f = rec.static_intercept_input("history")(lambda *a, **k: "R")
+
+        class Op(object):
+            @rec.operation()
+            def execute(self):
+                return f(*[to_py(x) for x in case["args"]], **{k: to_py(v) for k, v in case["kwargs"]})
+        Op().execute()
+    finally:
+        cleanup()
+
+
 def run_c06(case):
     out = key_for(case["alias"], case["cap"], case["static"], case["args"], case["kwargs"])
+    if case.get("after_save"):
+        out["key_after_save"] = []
+        for kind in case["after_save"]:
+            try:
+                save_on(kind, case)
+                k2 = key_for(case["alias"], case["cap"], case["static"], case["args"], case["kwargs"]).get("key")
+            except Exception as ex:
+                k2 = "save failed: %s: %s" % (type(ex).__name__, str(ex)[:200])
+            out["key_after_save"].append([kind, k2])
     if case.get("lookup"):
         try:
             out["lookup"] = run_lookup(case)
